@@ -412,7 +412,7 @@ def check_san_writer(ctx, f, L):
         ctx.check(not sym.contains(chk, lambda y: y == ("get", "checkers", BOARD)), "san-write:check-not-from-original", "the check flag reads the original board's checkers", where)
         mate = fields["checkmate"]
         if mate != sym.FALSE:
-            gm = [e for e in p.events if e.kind == "call" and e.depth == 0 and e.name == B + "::generate_moves"]
+            gm = [e for e in p.events if e.kind == "call" and here(e) and e.name == B + "::generate_moves"]
             okm = len(gm) >= 1
             if okm:
                 cl = gm[0].args[1]
@@ -478,11 +478,20 @@ def check_san_writer(ctx, f, L):
     # text assembly order
     ctx.rule("san-writer.text")
     fb = f.need("<cozy_chess::util::SanDisplay as core::fmt::Display>::fmt")
-    fps = sym.SymExec(f, fb, max_paths=200000).run()
+    # parts of the writer moved into private functions that take the formatter are read as part of it (as in C07)
+    from . import c07 as c07_
+    from .common import reachable_bodies
+    subw = {k_ for k_ in reachable_bodies(f, [fb.key], stop=lambda n_: not (n_.startswith("cozy_chess::") or n_.startswith("<cozy_chess::")))
+            if k_ != fb.key and k_.startswith("cozy_chess::") and f.bodies[k_].kind in ("Fn", "AssocFn") and not f.fns.get(k_, {}).get("pub")
+            and any("core::fmt::Formatter" in f.bodies[k_].locals[i_]["ty"] for i_ in range(1, f.bodies[k_].argc + 1))}
+    saved_own = set(c07_.OWN_WRITERS)
+    c07_.OWN_WRITERS.clear()
+    c07_.OWN_WRITERS.update(subw)
+    fps = sym.SymExec(f, fb, max_paths=200000, inline=(lambda n_: True if n_ in subw else None) if subw else None).run()
     orders = set()
     for p in fps:
         # successful paths: Ok(()) or the verdict of the last write handed back
-        last_write = [e for e in p.events if e.kind == "call" and e.depth == 0 and "core::fmt" in e.name and "::write_" in e.name]
+        last_write = [e for e in p.events if e.kind == "call" and (e.depth == 0 or e.fn.split("::{closure")[0] in subw) and "core::fmt" in e.name and "::write_" in e.name]
         if p.end != "return" or not ((p.ret[0] == "agg" and p.ret[2] == "Ok") or (last_write and p.ret == last_write[-1].ret)):
             continue
         # everything written on this path, as one template string (write!, write_str and write_char alike)
@@ -492,6 +501,8 @@ def check_san_writer(ctx, f, L):
         except ValueError:
             seq = "?"
         orders.add(seq)
+    c07_.OWN_WRITERS.clear()
+    c07_.OWN_WRITERS.update(saved_own)
     # destination: one placeholder (the square) or two (its file and rank)
     fulls = ("{}{}{}x{}={}#", "{}{}{}x{}{}={}#")
     tokens = lambda s: [x for x in s.replace("{}", "\0").replace("O-O-O", "\1").replace("O-O", "\2")]
